@@ -113,6 +113,8 @@ impl Monitor for C13 {
                 }
             };
             let disk_before = d.sut.log().resource_usage().disk_used_bytes;
+            let mem_before = d.sut.log().resource_usage().memory_used_bytes;
+            let summary_before = serde_json::to_string(&d.sut.log().summary().queues).unwrap_or_default();
             let img_before = Image::from_dir(&dir).digest();
             let Some(shape) = expected_shape(&bad, &d.gen.st) else {
                 acc.count("generated_call_is_not_a_noop_shape");
@@ -181,6 +183,17 @@ impl Monitor for C13 {
             };
             if let Some(diff) = before.diff(&after) {
                 acc.violation(format!("C13/state-changed/{}", shape), case, detail("observable state changed", json!({"diff": diff})));
+                return;
+            }
+            // summary() (start / end / first file of every queue) and the memory accounting are
+            // observable too
+            let summary_after = serde_json::to_string(&d.sut.log().summary().queues).unwrap_or_default();
+            if summary_after != summary_before {
+                acc.violation(format!("C13/summary-changed/{}", shape), case, detail("summary() changed", json!({"before": summary_before.chars().take(400).collect::<String>(), "after": summary_after.chars().take(400).collect::<String>()})));
+                return;
+            }
+            if d.sut.log().resource_usage().memory_used_bytes != mem_before {
+                acc.violation(format!("C13/memory_used_bytes-changed/{}", shape), case, detail("memory_used_bytes changed", json!({"before": mem_before, "after": d.sut.log().resource_usage().memory_used_bytes})));
                 return;
             }
             if d.sut.log().resource_usage().disk_used_bytes != disk_before {
